@@ -555,17 +555,76 @@ func (h *H) sweep() {
 		every = 1 + len(ks)/12
 	}
 	for i, k := range ks {
+		left := len(ks) - i
+		if left == 4 || left == 2 {
+			// tail of a remove-everything run: make the remaining nodes persisted, then keep
+			// removing without saving and read the latest saved version after each removal
+			h.doSave()
+		}
 		h.doRemove(k)
-		if i%every == 0 {
+		if left <= 4 {
+			h.latestReads(k)
+		}
+		if i%every == 0 || left <= 4 {
 			h.readShape(h.working())
 			h.randomRead(h.working())
 		}
-		if h.r.Chance(1, 40) {
+		if left > 4 && h.r.Chance(1, 40) {
 			h.doSave()
 		}
 	}
 	h.readShape(h.working())
 	h.fullCheck(h.working())
+}
+
+// latestReads reads the latest *saved* version (fresh GetImmutable, GetVersioned) while the working
+// tree may carry unsaved changes: the saved version must not see them.
+func (h *H) latestReads(k []byte) {
+	v := h.tree.Version()
+	if v <= 0 {
+		return
+	}
+	tg := h.immutable(v)
+	h.readMeta(tg)
+	h.readGet(tg, k)
+	h.readHas(tg, k)
+	h.doGetVersioned(v, k)
+	h.readIter(tg, nil, nil, true, false, 8)
+	h.readIter(tg, nil, nil, false, true, 8)
+	h.readIdx(tg, 0)
+	if h.small || len(h.present) <= 8 {
+		h.readShape(tg)
+	}
+}
+
+// tinyScenario (scripted, same in every run): trees of 1-3 keys, saved, then an unsaved Remove of
+// each key in turn followed by reads of the latest saved version, undone by Rollback; finally every
+// key is removed without saving in between, reading the latest saved version after each removal.
+func (h *H) tinyScenario() {
+	ks := [][]byte{h.keys[1], h.keys[len(h.keys)/2], h.keys[len(h.keys)-1]}
+	for n := 1; n <= 3; n++ {
+		h.doSet(ks[n-1], h.value())
+		h.doSave()
+		for j := 0; j < n; j++ {
+			h.doRemove(ks[j])
+			h.latestReads(ks[j])
+			h.readShape(h.working())
+			h.doRollback()
+			h.latestReads(ks[j])
+		}
+		// a pending Set next to a pending Remove
+		h.doRemove(ks[0])
+		h.doSet(ks[0], h.value())
+		h.latestReads(ks[0])
+		h.doSave()
+	}
+	for j := 0; j < 3; j++ {
+		h.doRemove(ks[(j+1)%3])
+		h.latestReads(ks[(j+1)%3])
+		h.randomRead(h.working())
+	}
+	h.doSave()
+	h.latestReads(ks[0])
 }
 
 // partialSweep removes a run of adjacent present keys, ascending or descending (large key spaces).
@@ -647,6 +706,7 @@ func main() {
 	if phaseLen < 1 {
 		phaseLen = 1
 	}
+	h.tinyScenario()
 	if !h.small {
 		h.bulk(len(h.keys) * 6 / 10)
 	}
@@ -681,6 +741,9 @@ func main() {
 				k = h.presentKey()
 			}
 			h.doRemove(k)
+			if len(h.present) <= 3 {
+				h.latestReads(k)
+			}
 		default:
 			switch y := h.r.Intn(20); {
 			case y < 9:
